@@ -28,7 +28,15 @@ RULE = (
     '(refused by scipp: counted); second use (same objects again, deep copies after repr/str/==/copy, after a refused '
     'call); and, on three shards of their own, every size class beyond 2^19 result elements (wavelength[det,tof] / '
     '[tof,det] / disjoint / per-pixel incident beams beyond 2^22 elements, 2^20+7 pixels, 3 x 400001, binned with '
-    '> 2^22 events, float32) on both code paths; '
+    '> 2^22 events, float32) on both code paths; caller dims whose labels are not in NFC / NFKC form (labels that '
+    'differ only by normalisation are different dims); all dims of length 1 / 2 / 3 / 4 (the lengths of a vector and '
+    'of a range, one below, one above); the same operand objects with one of them modified in place (values, unit, a '
+    'slice, the beam across the dispatch, gravity) between two calls, followed by the result overwritten in place and '
+    'a third call; and per ordinary shard one fresh interpreter (subprocess importing numpy, scipp and only '
+    'scippneutron.conversion.beamline in one of four ways, nothing of this harness) whose FIRST call is one of 13 '
+    'classes (function x horizontal / tilted / refused beam x dense / binned / float32 wavelength x keywords / '
+    'positional / transform_coords node) followed by both gravity entry points on a horizontal and a tilted beam, '
+    'every return judged by the same monitors and compared bit for bit with the worker\'s result for the same operands; '
     'distinct = (function, code path, tilt class, |g| class, dtype, layout, units) signatures; '
     'non-trivial unless axis-aligned+scalar. Domain rule for |g|: a gravity vector whose magnitude, as a number '
     'in its own unit, is below 1e-150 has a squared norm that underflows float64 (the same kind of range limit '
@@ -50,6 +58,12 @@ ASSUMPTIONS = [
     'elements (ends, both sides of every split into 2..16 pieces, random rest) in long double at the ordinary bound',
     'transform_coords (scipp) is trusted to pass the coordinates it looks up to the node and to store what the '
     'node returns; renaming of dims by transform_coords is not judged',
+    'the kernels are functions of the CONTENTS of their arguments at the time of the call: a result does not change '
+    'afterwards (when an argument is modified, when another call is made), writing into a result changes neither an '
+    'argument nor another output nor what the same call returns next time; a process that imported only the module '
+    'of the entry points gets the results every other process gets (elementwise float arithmetic: bit for bit)',
+    'the kernels have no string parameters; strings reach them only as dim labels of the operands, and (through '
+    'scipp, which accepts several spellings of the same unit) as units: only dim labels are varied',
 ]
 TOL64 = 1e-12
 TOL32 = 1e-5
@@ -158,7 +172,9 @@ def layout_problem(args, res):
     for k in ('incident_beam', 'scattered_beam', 'wavelength'):
         want.update(dict(args[k].sizes))
     if dict(res.sizes) != want:
-        return f'result sizes {dict(res.sizes)} but the operands span {want}'
+        def show(d):  # labels code point by code point
+            return '{' + ', '.join(f'{k!a}: {n}' for k, n in d.items()) + '}'
+        return f'result sizes {show(dict(res.sizes))} but the operands span {show(want)}'
     w = args['wavelength']
     if ops.is_binned(w) != ops.is_binned(res):
         return 'wavelength is ' + ('binned' if ops.is_binned(w) else 'dense') + ' but the result is not'
@@ -334,6 +350,11 @@ class Monitors:
             self.path = path
         return h
 
+    def where(self):
+        if self.meta.get('process') == 'fresh interpreter':
+            return f' [in a fresh interpreter after `{self.meta.get("imported")}` only]'
+        return ''
+
     def binding(self, ev, name):
         """The callee must receive each object under the documented parameter name, however it was passed."""
         want, self.intended = self.intended, None
@@ -433,7 +454,8 @@ class Monitors:
         case = {'function': name, 'path': path, **self.meta,
                 'args': {k: describe(v) for k, v in ev.args.items()}}
         if ev.exc is not None:
-            ctx.violation('raised', f'{name} raised {type(ev.exc).__name__}: {str(ev.exc)[:300]}', case, path=path)
+            ctx.violation('raised', f'{name} raised {type(ev.exc).__name__}: {str(ev.exc)[:300]}' + self.where(), case,
+                          path=path)
             return
         try:
             args, g_si, u2, f32 = self._common(ev)
@@ -519,7 +541,8 @@ class Monitors:
         if fam == 'layout' and name != 'beam_aligned_unit_vectors':
             ctx.event('judged.layout: ' + self.meta.get('wavelength_kind', '?') + ' wavelength, '
                       + self.meta.get('relation', '?') + ', ' + name)
-        if fam in ('heavy', 'graph', 'reuse', 'dim names') and name != 'beam_aligned_unit_vectors':
+        if fam in ('heavy', 'graph', 'reuse', 'dim names', 'sizes', 'inplace', 'fresh') \
+                and name != 'beam_aligned_unit_vectors':
             ctx.event(f'judged.{fam}: ' + self.meta.get('class', '?') + ', ' + name)
         gn = float(geom.norm(np.asarray(ev.args['gravity'].values)))
         if gn < 1e-12:
@@ -542,8 +565,8 @@ class Monitors:
                 ctx.event('frame.refused')
                 return
             if self.meta.get('family') in ('direct', 'yz', 'tilt_sweep', 'limits', 'frame', 'layout', 'heavy',
-                                           'graph', 'reuse', 'dim names'):
-                ctx.violation('frame_raised', f'{name} raised {type(ev.exc).__name__}: {ev.exc}', case)
+                                           'graph', 'reuse', 'dim names', 'sizes', 'inplace', 'fresh'):
+                ctx.violation('frame_raised', f'{name} raised {type(ev.exc).__name__}: {ev.exc}' + self.where(), case)
             return
         if self.meta.get('parallel_to_gravity'):
             ctx.violation('frame_not_refused', f'{name} accepted an incident beam parallel to gravity', case)
@@ -589,8 +612,8 @@ class Monitors:
             if isinstance(ev.exc, ValueError) and tilt is not None and tilt > 0:
                 ctx.event('yz.refused')
                 return
-            ctx.violation('yz_raised', f'{name} raised {type(ev.exc).__name__} for tilt {tilt}: {str(ev.exc)[:300]}',
-                          case, tilt_zero=(tilt == 0))
+            ctx.violation('yz_raised', f'{name} raised {type(ev.exc).__name__} for tilt {tilt}: {str(ev.exc)[:300]}'
+                          + self.where(), case, tilt_zero=(tilt == 0))
             return
         if tilt is not None and tilt >= 1e-3:
             ctx.violation('yz_not_refused', f'{name} accepted an incident beam tilted by {tilt} rad '
@@ -1003,14 +1026,39 @@ def layout_classes():
 # 'event'; the parameters and outputs of the kernels; common internal dim names)
 DIM_NAME_SETS = [('x', 'y', 'z'), ('event', 'row', 'range'), ('wavelength', 'scattered_beam', 'incident_beam'),
                  ('two_theta', 'phi', 'gravity'), ('rotation', 'slit', 'vertex')]
+# dim labels that are not in NFC / NFKC form: labels that differ only by normalisation are DIFFERENT dims (the result
+# spans all of them, each under exactly the code points the caller used)
+UNICODE_DIM_SETS = [
+    ('e\u0301', '\u00e9', '\u212b'),       # decomposed / composed accent, ANGSTROM SIGN
+    ('\u212a', 'K', '\uff2b'),              # KELVIN SIGN, K, fullwidth K
+    ('\u00b5', '\u03bc', '\u2126'),         # MICRO SIGN, GREEK SMALL MU, OHM SIGN
+    ('\ufb01', 'fi', '\u00c5'),              # ligature fi, 'fi', A WITH RING
+    ('\u1100\u1161', '\uac00', '\u037e'),   # conjoining jamo, the precomposed syllable, GREEK QUESTION MARK
+    ('\u037e', ';', 'A\u030a'),             # GREEK QUESTION MARK, semicolon, A + COMBINING RING
+]
+# (p) dims whose length coincides with the lengths the implementation handles internally (the 3 components of a
+# vector, the 2 ends of a range), one below, one above; relations with two 2-d operands
+SIZE_CLASSES = (1, 2, 3, 4)
+SIZE_RELATIONS = ('overlapping', 'equal 2-d transposed')
 
 
-def layout_case(rng, ctx, K, mon, rel, kind, path, variant, rename=None):
+def dim_label(names):
+    return '/'.join(n if n.isascii() else n.encode('unicode_escape').decode() for n in names)
+
+
+def size_classes():
+    return [f'sizes: all dims of length {n}, {rel}, {kind} wavelength, {path}' for n in SIZE_CLASSES
+            for rel in SIZE_RELATIONS for kind in LAYOUT_KINDS for path in LAYOUT_PATHS]
+
+
+def layout_case(rng, ctx, K, mon, rel, kind, path, variant, rename=None, length=None):
     """One call per (relation of the dims of wavelength and scattered_beam) x (dense / binned wavelength) x
     (code path); the reflectometry variant on the horizontal beams. Every (event, pixel) pair of the result is
     judged against the construction by the ordinary monitors. ``rename``: names for the dims (det, voxel, tof)."""
     name, bdims, wdims = rel
     sizes = {'det': int(rng.integers(2, 5)), 'voxel': int(rng.integers(2, 4)), 'tof': int(rng.integers(2, 4))}
+    if length is not None:
+        sizes = dict.fromkeys(sizes, int(length))
     tilt = 0.0 if path == 'horizontal beam' else [1e-7, 1e-3, 1e-1, 1.0][int(rng.integers(0, 4))]
     cfg = make_config(rng, ctx, tilt=tilt, gmag=[1.0, 9.80665, 100.0][int(rng.integers(0, 3))])
     ub, uw, ug = LEN_UNITS[rng.integers(0, 3)], WAV_UNITS[rng.integers(0, 3)], G_UNITS[rng.integers(0, len(G_UNITS))]
@@ -1072,9 +1120,12 @@ def layout_case(rng, ctx, K, mon, rel, kind, path, variant, rename=None):
     if rename is not None:
         to = dict(zip(('det', 'voxel', 'tof'), rename, strict=True))
         args = {k: v.rename_dims({d: to[d] for d in v.dims}) for k, v in args.items()}
-        cls = 'dims named ' + '/'.join(rename)
+        cls = 'dims named ' + dim_label(rename)
         mon.meta = dict(mon.meta, family='dim names', **{'class': f'{cls}, {kind} wavelength, {path}'})
         ctx.hit('dim names: ' + cls)
+    if length is not None:
+        cls = f'all dims of length {length}, {name}, {kind} wavelength, {path}'
+        mon.meta = dict(mon.meta, family='sizes', **{'class': cls})
     mon.path = None
     positional = convention_of(variant)
     try:
@@ -1088,7 +1139,10 @@ def layout_case(rng, ctx, K, mon, rel, kind, path, variant, rename=None):
             pass
     mon.meta = {}
     if rename is not None:
-        return ('dim names', rename, kind, path, 'f32' if f32 else 'f64')
+        return ('dim names', dim_label(rename), kind, path, 'f32' if f32 else 'f64')
+    if length is not None:
+        ctx.hit('sizes: ' + cls)
+        return ('sizes', length, name, kind, path, 'f32' if f32 else 'f64')
     ctx.hit(f'layout: {kind} wavelength, {name}, {path}')
     if kind == 'binned':
         ctx.hit('layout: binned wavelength, ' + ('contiguous event buffer' if contiguous else
@@ -1381,6 +1435,428 @@ def graph_case(rng, ctx, K, mon, form, fname, kind, path, v):
     return sig
 
 
+# ------------------------------------- in-place modification / aliasing ---
+INPLACE_MODES = ('wavelength values overwritten', 'unit of the wavelength changed (angstrom -> pm)',
+                 'a slice of scattered_beam overwritten', 'unit of scattered_beam changed (m -> cm)',
+                 'incident_beam overwritten: horizontal <-> tilted', 'gravity overwritten: reversed and rescaled')
+
+
+def inplace_classes():
+    return [f'{mode}, {kind} wavelength, {path}' for mode in INPLACE_MODES for kind in LAYOUT_KINDS
+            for path in LAYOUT_PATHS]
+
+
+def _mutate(mode, a, cfg, tilt, rng):
+    """Change one operand of ``a`` in place (the objects stay the same); returns the tilt of the incident beam
+    afterwards. Every change moves the angles by far more than the bound and stays inside the quantifier."""
+    w = a['wavelength']
+    binned = ops.is_binned(w)
+    if mode == INPLACE_MODES[0]:
+        data = w.bins.constituents['data'] if binned else w
+        data.values[...] = 100.0 - data.values  # 0.5..50 -> 50..99.5 angstrom
+    elif mode == INPLACE_MODES[1]:
+        if binned:
+            w.bins.unit = 'pm'
+        else:
+            w.unit = 'pm'
+    elif mode == INPLACE_MODES[2]:
+        b2 = a['scattered_beam']
+        k = max(1, b2.shape[0] // 2)
+        b2.values[:k] = detectors(rng, k)
+    elif mode == INPLACE_MODES[3]:
+        a['scattered_beam'].unit = 'cm'
+    elif mode == INPLACE_MODES[4]:
+        tilt = [1e-3, 1e-2, 1e-1][int(rng.integers(0, 3))] if tilt == 0 else 0.0
+        up = -geom.v3(cfg['ghat'])
+        a['incident_beam'].values[:] = (cfg['L1'] * (np.cos(si.LD(tilt)) * geom.v3(cfg['h'])
+                                                     + np.sin(si.LD(tilt)) * up)).astype(np.float64)
+    else:
+        a['gravity'].values[:] = -0.37 * a['gravity'].values
+    return tilt
+
+
+def _overwrite(o):
+    """Write into a result in place; False if scipp does not let the caller write."""
+    try:
+        data = o.bins.constituents['data'] if ops.is_binned(o) else o
+        data.values[...] = -1.25
+        return True
+    except Exception:  # noqa: BLE001
+        return False
+
+
+def inplace_case(rng, ctx, K, mon, mode, kind, path, v):
+    """(k) the same operand objects with one of them modified in place between two calls: the second call is judged
+    (by the ordinary monitors, which read the arguments when the call returns) against the construction for the NEW
+    contents. (l) the result obtained before the modification must not change with it; writing into a result must
+    not change an argument nor another output, and the call repeated on the same arguments gives the earlier
+    result again, bit for bit."""
+    from rv.snap import fp
+
+    tilt0 = 0.0 if path == 'horizontal beam' else [1e-7, 1e-3, 1e-1][int(rng.integers(0, 3))]
+    cfg, args = small_args(rng, ctx, tilt0, kind, f32=(v % 3 == 2))
+    cls = f'{mode}, {kind} wavelength, {path}'
+    fns = [('scattering_angles_with_gravity', K.scattering_angles_with_gravity)]
+    if tilt0 == 0 or mode == INPLACE_MODES[4]:
+        fns.append(('scattering_angle_in_yz_plane', K.scattering_angle_in_yz_plane))
+    for fname, fn in fns:
+        a = {k: x.copy() for k, x in args.items()}
+        state = {'tilt': tilt0}
+
+        def go(conv='keywords'):
+            mon.meta = {'family': 'inplace', 'tilt': float(state['tilt']), 'gmag': cfg['gmag'], 'class': cls}  # noqa: B023
+            mon.path = None
+            try:
+                return call(fn, a, mon, conv)  # noqa: B023
+            except Exception:  # noqa: BLE001  judged by the monitors (refusal of a tilted beam by the yz variant)
+                return None
+
+        def outs_of(r):
+            return [r[k] for k in sorted(r)] if isinstance(r, dict) else [r]
+
+        case = {'function': fname, 'family': 'inplace', 'class': cls, 'tilt': float(tilt0), 'gmag': cfg['gmag'],
+                'args': {k: describe(x) for k, x in a.items()}}
+        r1 = go()
+        ref1 = None if r1 is None else _fp_result(r1)
+        state['tilt'] = _mutate(mode, a, cfg, tilt0, rng)
+        if r1 is not None:
+            ctx.event('inplace.earlier result after an argument was modified: ' + fname)
+            if _fp_result(r1) != ref1:
+                ctx.violation('result_aliases_argument', f'{fname}: the result obtained earlier changed when the '
+                              f'caller modified an argument in place ({mode})', case, function=fname)
+        r2 = go(convention_of(3 * v + 1))
+        ctx.event('inplace.second call with the modified objects: ' + fname)
+        if r1 is not None and _fp_result(r1) != ref1:
+            ctx.violation('earlier_result_changed', f'{fname}: the result of the first call changed during the second '
+                          'call (same objects, one modified in place in between)', case, function=fname)
+        if r2 is None:
+            continue
+        ref2 = _fp_result(r2)
+        before = _fp_args(a)
+        outs = outs_of(r2)
+        rest = [fp(o) for o in outs[1:]]
+        if not _overwrite(outs[0]):
+            ctx.count('inplace: result not writable')
+            continue
+        if [fp(o) for o in outs[1:]] != rest:
+            ctx.violation('result_aliases_result', f'{fname}: writing into one output changes the other', case,
+                          function=fname)
+        for o in outs[1:]:
+            _overwrite(o)
+        ctx.event('inplace.arguments after the result was overwritten: ' + fname)
+        changed = [k for k, h in _fp_args(a).items() if h != before[k]]
+        if changed:
+            ctx.violation('argument_aliases_result', f'{fname}: writing into the result changes the argument(s) '
+                          f'{changed}', case, function=fname)
+            continue
+        r3 = go()
+        if r1 is not None and _fp_result(r1) != ref1:
+            ctx.violation('earlier_result_changed', f'{fname}: the result of the first call changed during the third '
+                          'call', case, function=fname)
+        if r3 is None or _fp_result(r3) != ref2:
+            ctx.violation('second_use', f'{fname}: after the caller overwrote the result in place, the same call '
+                          'does not give the earlier result again', case, function=fname,
+                          mode='after the result was overwritten in place')
+    mon.meta = {}
+    ctx.hit('inplace: ' + cls)
+    return ('inplace', mode, kind, path)
+
+
+# ------------------------------------- first call in a fresh interpreter ---
+# Source shared by the worker and the fresh interpreter: operands are rebuilt from a JSON document (hexadecimal
+# floats) by the same code in both processes; results come back the same way. Uses numpy and scipp only.
+FRESH_SHARED = r'''
+def build(s):
+    if s['k'] == 'binned':
+        def ix(x):
+            return sc.array(dims=s['dims'], values=np.array(x, dtype='int64').reshape(s['shape']), unit=None,
+                            dtype='int64')
+        return sc.bins(begin=ix(s['begin']), end=ix(s['end']), dim=s['dim'], data=build(s['data']))
+    vals = np.array([float.fromhex(x) for x in s['values']], dtype='float64')
+    if s['k'] == 'vector3':
+        vals = vals.reshape([*s['shape'], 3])
+        return sc.vectors(dims=s['dims'], values=vals, unit=s['unit']) if s['dims'] else sc.vector(vals, unit=s['unit'])
+    vals = vals.astype(s['dtype']).reshape(s['shape'])
+    return sc.array(dims=s['dims'], values=vals, unit=s['unit'], dtype=s['dtype'])
+
+
+def dump(v):
+    if v.bins is not None:
+        c = v.bins.constituents
+        return {'k': 'binned', 'dims': list(v.dims), 'shape': list(v.shape), 'dim': c['dim'],
+                'begin': [int(x) for x in np.ravel(c['begin'].values)],
+                'end': [int(x) for x in np.ravel(c['end'].values)], 'data': dump(c['data'])}
+    return {'k': 'vector3' if v.dtype == sc.DType.vector3 else 'array', 'dims': list(v.dims), 'shape': list(v.shape),
+            'unit': str(v.unit), 'dtype': str(v.dtype), 'values': [float(x).hex() for x in np.ravel(v.values)]}
+
+
+def invoke(K, c, args):
+    fn = getattr(K, c['fn'])
+    if c['how'] == 'positional':
+        return fn(*[args[k] for k in c['order']])
+    if c['how'] == 'graph node':
+        da = sc.DataArray(sc.zeros(sizes=args['wavelength'].sizes), coords=args)
+        outs = c['outs']
+        out = da.transform_coords(outs, graph={(tuple(outs) if len(outs) > 1 else outs[0]): fn}, rename_dims=False)
+        return {k: out.coords[k] for k in outs} if len(outs) > 1 else out.coords[outs[0]]
+    return fn(**args)
+'''
+FRESH_MAIN = r'''
+import json, sys
+import numpy as np
+import scipp as sc
+out = {'argv_flags': sys.flags.optimize}
+try:
+%(imports)s
+except BaseException as e:
+    out['import_exc'] = [type(e).__name__, str(e)[:300]]
+    json.dump(out, sys.stdout)
+    sys.exit(0)
+out['file'] = sys.modules['scippneutron'].__file__
+out['modules'] = sorted(m for m in sys.modules if m.startswith('scippneutron'))
+job = json.load(sys.stdin)
+res = []
+for c in job['calls']:
+    try:
+        args = {k: build(s) for k, s in c['args'].items()}
+    except BaseException as e:
+        res.append({'harness': repr(e)[:300]})
+        continue
+    try:
+        r = invoke(K, c, args)
+    except Exception as e:
+        res.append({'exc': type(e).__name__, 'value_error': isinstance(e, ValueError), 'msg': str(e)[:300]})
+        continue
+    try:
+        res.append({'ok': {k: dump(v) for k, v in r.items()} if isinstance(r, dict) else dump(r),
+                    'dict': isinstance(r, dict)})
+    except BaseException as e:
+        res.append({'undumpable': repr(e)[:300], 'type': type(r).__name__})
+out['results'] = res
+json.dump(out, sys.stdout)
+'''
+_FRESH_FUNCS = ('scattering_angles_with_gravity', 'scattering_angle_in_yz_plane', 'beam_aligned_unit_vectors')
+# the ways a program gets hold of the entry points, importing nothing else of the package
+FRESH_IMPORTS = (
+    ('from scippneutron.conversion import beamline', 'from scippneutron.conversion import beamline as K'),
+    ('import scippneutron.conversion.beamline', 'import scippneutron.conversion.beamline as K'),
+    ('from scippneutron.conversion.beamline import <the functions>',
+     'from scippneutron.conversion.beamline import ' + ', '.join(_FRESH_FUNCS) + '\nimport types\n'
+     'K = types.SimpleNamespace(' + ', '.join(f'{f}={f}' for f in _FRESH_FUNCS) + ')'),
+    ('import scippneutron; scippneutron.conversion.beamline (lazy attributes)',
+     'import scippneutron\nK = scippneutron.conversion.beamline'),
+)
+# what the fresh interpreter does FIRST: function, incident beam, wavelength, how it is called
+FRESH_FIRST = [
+    ('scattering_angles_with_gravity', 'horizontal beam', 'dense', 'keywords'),
+    ('scattering_angles_with_gravity', 'tilted beam', 'dense', 'keywords'),
+    ('scattering_angles_with_gravity', 'horizontal beam', 'binned', 'keywords'),
+    ('scattering_angles_with_gravity', 'tilted beam', 'binned', 'positional'),
+    ('scattering_angles_with_gravity', 'horizontal beam', 'dense float32', 'positional'),
+    ('scattering_angles_with_gravity', 'horizontal beam', 'dense', 'graph node'),
+    ('scattering_angles_with_gravity', 'tilted beam', 'dense', 'graph node'),
+    ('scattering_angle_in_yz_plane', 'horizontal beam', 'dense', 'keywords'),
+    ('scattering_angle_in_yz_plane', 'horizontal beam', 'binned', 'positional'),
+    ('scattering_angle_in_yz_plane', 'horizontal beam', 'dense', 'graph node'),
+    ('scattering_angle_in_yz_plane', 'tilted beam (refused)', 'dense', 'keywords'),
+    ('beam_aligned_unit_vectors', 'tilted beam', 'none', 'keywords'),
+    ('beam_aligned_unit_vectors', 'beam parallel to gravity (refused)', 'none', 'keywords'),
+]
+# ... and afterwards, in the same interpreter: both gravity entry points on a horizontal and on a tilted beam
+FRESH_TAIL = [
+    ('scattering_angles_with_gravity', 'horizontal beam', 'dense', 'keywords'),
+    ('scattering_angles_with_gravity', 'tilted beam', 'binned', 'keywords'),
+    ('scattering_angle_in_yz_plane', 'horizontal beam', 'binned', 'keywords'),
+    ('scattering_angle_in_yz_plane', 'tilted beam (refused)', 'dense', 'positional'),
+    ('scattering_angles_with_gravity', 'tilted beam', 'dense float32', 'positional'),
+    ('beam_aligned_unit_vectors', 'tilted beam', 'none', 'keywords'),
+]
+_FRESH_NS = None
+
+
+def fresh_label(c):
+    return f'{c[0]}, {c[1]}, {c[2]} wavelength, {c[3]}' if c[2] != 'none' else f'{c[0]}, {c[1]}'
+
+
+def fresh_ns():
+    global _FRESH_NS
+    if _FRESH_NS is None:
+        ns = {'np': np, 'sc': sc}
+        exec(compile(FRESH_SHARED, '<C04 fresh-interpreter helpers>', 'exec'), ns)  # noqa: S102  (own source)
+        _FRESH_NS = ns
+    return _FRESH_NS
+
+
+class _Observed:
+    """A return observed in another process, presented to the monitors like a traced return."""
+    depth, pre = 0, None
+
+    def __init__(self, args, result, exc):
+        self.args, self.result, self.exc = args, result, exc
+
+
+def _exc_like(d):
+    import builtins
+
+    t = getattr(builtins, d['exc'], None) or getattr(sc, d['exc'], None)
+    if not (isinstance(t, type) and issubclass(t, Exception)):
+        t = type(d['exc'], (ValueError if d.get('value_error') else Exception,), {})
+    try:
+        return t(d['msg'])
+    except Exception:  # noqa: BLE001
+        return type(d['exc'], (Exception,), {})(d['msg'])
+
+
+def _fresh_call(rng, ctx, c):
+    """(job entry, meta) of one call of the fresh-interpreter job."""
+    fname, beam, wkind, how = c
+    ns = fresh_ns()
+    f32 = wkind.endswith('float32')
+    kind = wkind.split()[0]
+    parallel = 'parallel' in beam
+    tilt = 0.0 if beam == 'horizontal beam' else [1e-3, 1e-2, 1e-1, 1.0][int(rng.integers(0, 4))]
+    cfg, args = small_args(rng, ctx, tilt, 'dense' if kind == 'none' else kind, f32=f32)
+    meta = {'family': 'fresh', 'tilt': float(tilt), 'gmag': cfg['gmag'], 'class': fresh_label(c)}
+    outs = None
+    if fname == 'beam_aligned_unit_vectors':
+        args = {k: args[k] for k in ('incident_beam', 'gravity')}
+        meta['parallel_to_gravity'] = parallel
+        if parallel:
+            sgn = 1.0 if rng.random() < 0.5 else -1.0
+            args['incident_beam'] = sc.vector(sgn * cfg['L1'] * np.asarray(cfg['ghat'], dtype=np.float64), unit='m')
+        order = ['incident_beam', 'gravity']
+    else:
+        order = list(DOCUMENTED_ORDER)
+        outs = ['two_theta', 'phi'] if fname == _FRESH_FUNCS[0] else ['theta']
+    job = {'fn': fname, 'how': how, 'order': order, 'outs': outs, 'args': {k: ns['dump'](v) for k, v in args.items()}}
+    return job, meta, args
+
+
+def _rebuild_result(d):
+    ns = fresh_ns()
+    return {k: ns['build'](s) for k, s in d['ok'].items()} if d['dict'] else ns['build'](d['ok'])
+
+
+def fresh_case(rng, ctx, K, mon, first, form):
+    """(o) The first call in a fresh interpreter that imports numpy, scipp and ONLY the module of the entry points
+    (in one of the ways a program can import it), not scipp.constants, no other module of the package, not this
+    harness: what it returns / raises is judged by the ordinary monitors against the construction, exactly like a
+    return observed in the worker, and must be the same (bit for bit; the same exception type) as what the worker
+    gets for the same operands. After the first call the same interpreter evaluates both gravity entry points on a
+    horizontal and on a tilted beam."""
+    import json
+    import os
+    import subprocess
+    import sys
+
+    ns = fresh_ns()
+    calls = [first, *FRESH_TAIL]
+    jobs = [_fresh_call(rng, ctx, c) for c in calls]
+    label, imports = FRESH_IMPORTS[form]
+    script = FRESH_SHARED + FRESH_MAIN % {'imports': '\n'.join('    ' + ln for ln in imports.splitlines())}
+    src = os.environ.get('RV_REPO_SRC', '/repo/src')
+    env = dict(os.environ, PYTHONPATH=src, PYTHONDONTWRITEBYTECODE='1')
+    cmd = [sys.executable, '-P', *(['-OO'] if sys.flags.optimize >= 2 else []), '-c', script]
+    sig = ('fresh', fresh_label(first), label)
+    try:
+        proc = subprocess.Popen(cmd, stdin=subprocess.PIPE, stdout=subprocess.PIPE, stderr=subprocess.PIPE,
+                                env=env, cwd=src, text=True)
+    except OSError:
+        ctx.oracle_error('fresh interpreter: start')
+        return sig
+    # the worker evaluates the same operands (rebuilt from the same document) while the other interpreter runs
+    here = []
+    for job, meta, args in jobs:
+        try:
+            a = {k: ns['build'](s) for k, s in job['args'].items()}
+            if not all(sc.identical(a[k], args[k], equal_nan=True) for k in args):
+                raise ValueError('operands do not survive the document')
+        except Exception:  # noqa: BLE001
+            ctx.oracle_error('fresh interpreter: operands')
+            here.append(None)
+            continue
+        mon.meta = dict(meta, process='worker', **{'class': meta['class'] + ' [worker]'})
+        mon.path = None
+        try:
+            here.append((a, ns['invoke'](K, job, a), None))
+        except Exception as e:  # noqa: BLE001  judged by the monitors
+            here.append((a, None, e))
+    mon.meta = {}
+    try:
+        stdout, stderr = proc.communicate(json.dumps({'calls': [j for j, _, _ in jobs]}), timeout=300)
+    except subprocess.TimeoutExpired:
+        proc.kill()
+        proc.communicate()
+        ctx.inconclusive_because('the fresh interpreter did not finish within the watchdog')
+        return sig
+    try:
+        out = json.loads(stdout)
+    except ValueError:
+        out = None
+    case0 = {'family': 'fresh', 'import': label, 'first call': fresh_label(first)}
+    if out is None:
+        # the interpreter died without a report: nothing was observed
+        ctx.inconclusive_because('the fresh interpreter gave no report (exit status '
+                                 f'{proc.returncode}): {stderr[-300:]!r}')
+        return sig
+    ctx.event('fresh.interpreter reported')
+    if 'import_exc' in out:
+        ctx.violation('fresh_process', f'in a fresh interpreter `{label}` fails with {out["import_exc"][0]}: '
+                      f'{out["import_exc"][1]}', case0, function='import', problem='import failed')
+        return sig
+    if os.path.realpath(os.path.dirname(os.path.dirname(out['file']))) != os.path.realpath(src):
+        ctx.inconclusive_because('the fresh interpreter imported scippneutron from ' + out['file'])
+        return sig
+    handlers = dict(zip(_FRESH_FUNCS, (mon.angles, mon.yz, mon.frame), strict=True))
+    for i, ((job, meta, _), mine, d) in enumerate(zip(jobs, here, out.get('results', []), strict=False)):
+        fname = job['fn']
+        if mine is None or 'harness' in d or 'undumpable' in d:
+            ctx.oracle_error('fresh interpreter: transport')
+            continue
+        a, r_here, e_here = mine
+        try:
+            r_there = _rebuild_result(d) if 'ok' in d else None
+            e_there = _exc_like(d) if 'exc' in d else None
+        except Exception:  # noqa: BLE001
+            ctx.oracle_error('fresh interpreter: result')
+            continue
+        which = 'first call' if i == 0 else 'later call'
+        mon.meta = dict(meta, process='fresh interpreter', imported=label,
+                        **{'class': meta['class'] + f' [fresh interpreter, {which}]'})
+        mon.path = 'fresh interpreter'
+        before = ctx.n_violations
+        handlers[fname](_Observed(a, r_there, e_there))
+        mon.meta, mon.path = {}, None
+        ctx.event('fresh.' + which + ' judged')
+        case = dict(case0, function=fname, call=fresh_label(calls[i]), position=which,
+                    args={k: describe(v) for k, v in a.items()})
+        if (e_here is None) != (e_there is None):
+            if ctx.n_violations == before or e_there is None:
+                who, exc = ('fresh interpreter', d) if e_there is not None else \
+                    ('worker', {'exc': type(e_here).__name__, 'msg': str(e_here)[:300]})
+                ctx.violation('fresh_process', f'{fname} ({which}, `{label}`) raises {exc["exc"]}: {exc["msg"]} in the '
+                              f'{who} only', case, function=fname, problem='raised in one process only')
+        elif e_here is not None:
+            if type(e_here).__name__ != d['exc']:
+                ctx.violation('fresh_process', f'{fname} ({which}): {d["exc"]} in the fresh interpreter, '
+                              f'{type(e_here).__name__} in the worker', case, function=fname,
+                              problem='different exception')
+        else:
+            pairs = [(r_here[k], r_there.get(k)) for k in r_here] if isinstance(r_here, dict) and \
+                isinstance(r_there, dict) else [(r_here, r_there)]
+            same = all(isinstance(y, sc.Variable) and isinstance(x, sc.Variable) and sc.identical(x, y, equal_nan=True)
+                       for x, y in pairs)
+            if not same:
+                ctx.violation('fresh_process', f'{fname} ({which}, `{label}`): the result in the fresh interpreter '
+                              'is not the result the worker gets for the same operands', case, function=fname,
+                              problem='different result')
+    if len(out.get('results', [])) != len(jobs):
+        ctx.oracle_error('fresh interpreter: number of results')
+    ctx.hit('fresh: first call = ' + fresh_label(first))
+    ctx.hit('fresh: ' + label)
+    return sig
+
+
 # ----------------------------------------------------------- heavy sizes ---
 # name, scattered_beam dims, wavelength dims, sizes, wavelength kind, incident beam per element of
 HEAVY_CASES = [
@@ -1480,7 +1956,7 @@ def heavy_pairs(tier, seed, slot):
 def plan(tier, seed):
     quick = tier == 'quick'
     ordinary = [{'kind': 'ordinary', 'cases': 360 if quick else 24000, 'sweeps': 18 if quick else 960,
-                 'layout_reps': 1 if quick else 48} for _ in range(N_ORDINARY)]
+                 'layout_reps': 1 if quick else 48, 'fresh': 1 if quick else 6} for _ in range(N_ORDINARY)]
     return ordinary + [{'kind': 'heavy', 'slot': k} for k in range(HEAVY_SHARDS)]
 
 
@@ -1502,6 +1978,15 @@ def requirements(tier):
     for fn in fns[:2]:
         events['variances.refused: ' + fn] = n
         events['graph.' + fn] = n
+        events['inplace.second call with the modified objects: ' + fn] = n
+        events['inplace.earlier result after an argument was modified: ' + fn] = n
+        events['inplace.arguments after the result was overwritten: ' + fn] = n
+    events.update({'fresh.interpreter reported': n, 'fresh.first call judged': n,
+                   'fresh.later call judged': n * len(FRESH_TAIL)})
+    for cls in inplace_classes():
+        events[f'judged.inplace: {cls}, scattering_angles_with_gravity'] = n
+    for cls in size_classes():
+        events['judged.' + cls + ', scattering_angles_with_gravity'] = n
     for rel in LAYOUT_RELATIONS:
         for kind in LAYOUT_KINDS:
             events[f'judged.layout: {kind} wavelength, {rel[0]}, scattering_angles_with_gravity'] = n
@@ -1529,7 +2014,9 @@ def requirements(tier):
            'layout: one incident beam per element of a dim of the other operands']
         + ['call: ' + c for c in CONVENTIONS]
         + ['graph: ' + c for c in graph_classes()] + ['graph: ' + m for m in GRAPH_MASKS]
-        + ['dim names: dims named ' + '/'.join(names) for names in DIM_NAME_SETS]
+        + ['dim names: dims named ' + dim_label(names) for names in [*DIM_NAME_SETS, *UNICODE_DIM_SETS]]
+        + size_classes() + ['inplace: ' + c for c in inplace_classes()]
+        + ['fresh: first call = ' + fresh_label(c) for c in FRESH_FIRST] + ['fresh: ' + f[0] for f in FRESH_IMPORTS]
         + [f'variances: {kind} wavelength with variances, {path}' for kind in LAYOUT_KINDS for path in LAYOUT_PATHS]
         + [f'reuse: {mode}, {kind} wavelength, {path}' for mode in REUSE_MODES for kind in LAYOUT_KINDS
            for path in LAYOUT_PATHS]
@@ -1605,6 +2092,39 @@ def run(shard, ctx):
         for _ in range(shard['sweeps']):  # noqa: B007
             ctx.case(tilt_sweep(rng, ctx, K, mon))
             ctx.case(limits_case(rng, ctx, K, mon, _))
+        # (after everything else, so that the cases above are the same as before these classes existed)
+        # first call in a fresh interpreter: over the ordinary shards of a run every first call and every import form
+        for r in range(shard.get('fresh', 1)):
+            before = ctx.n_violations
+            first = FRESH_FIRST[(shard['index'] + shard['seed'] + 5 * r) % len(FRESH_FIRST)]
+            form = (shard['index'] + 2 * shard['seed'] + r) % len(FRESH_IMPORTS)
+            ctx.case(fresh_case(rng, ctx, K, mon, first, form))
+            if ctx.n_violations > before and len(ctx.samples) < 12:
+                ctx.sample({'family': 'fresh', 'first call': fresh_label(first), 'import': FRESH_IMPORTS[form][0]})
+        for _rep in range(shard['layout_reps']):
+            # dim labels not in NFC / NFKC form, dims of the lengths the implementation uses internally,
+            # operands modified in place between two calls / results and arguments written to
+            overlapping = next(r for r in LAYOUT_RELATIONS if r[0] == 'overlapping')
+            for names in UNICODE_DIM_SETS:
+                for kind in LAYOUT_KINDS:
+                    for path in LAYOUT_PATHS:
+                        ctx.case(layout_case(rng, ctx, K, mon, overlapping, kind, path, v, rename=names))
+                        v += 1
+            for length in SIZE_CLASSES:
+                for relname in SIZE_RELATIONS:
+                    rel = next(r for r in LAYOUT_RELATIONS if r[0] == relname)
+                    for kind in LAYOUT_KINDS:
+                        for path in LAYOUT_PATHS:
+                            ctx.case(layout_case(rng, ctx, K, mon, rel, kind, path, v, length=length))
+                            v += 1
+            for mode in INPLACE_MODES:
+                for kind in LAYOUT_KINDS:
+                    for path in LAYOUT_PATHS:
+                        before = ctx.n_violations
+                        ctx.case(inplace_case(rng, ctx, K, mon, mode, kind, path, v))
+                        v += 1
+                        if ctx.n_violations > before and len(ctx.samples) < 12:
+                            ctx.sample({'family': 'inplace', 'mode': mode, 'wavelength': kind, 'path': path})
 
 
 FINDING_PREDICATES = {}
@@ -1627,7 +2147,12 @@ LEVEL_TEXT = ('exploration: every observed return of scattering_angles_with_grav
               'graph (must be called, must not fail except by the kernel\'s own refusal, output coordinates are what the '
               'kernel returned, masks kept), with every calling convention, with results beyond 2^22 elements in the '
               'ordinary time-of-flight layouts on both paths (every element screened in float64, a selection in long '
-              'double), and a second time with the same / copied objects (bit-identical result, arguments unchanged). '
+              'double), and a second time with the same / copied objects (bit-identical result, arguments unchanged), '
+              'with operands modified in place between calls and results overwritten by the caller (no memoisation by '
+              'identity, no memory shared between results, arguments and later calls), with dim labels not in NFC / NFKC '
+              'form and dims of length 1..4, and as the first call of a fresh interpreter that imported only the module '
+              'of the entry points (13 first-call classes x 4 import forms per run; same monitors, and bit-identical '
+              'with the worker). '
               'Sampled inputs, not a proof.')
 LEVEL_NOTE = ('trusted: numpy long double, scipp containers, h and m_n from scipp.constants, the docstring '
               'construction as specification')
